@@ -699,7 +699,7 @@ def emit(path_tla, path_json):
         trees=trees, alphabet={k: alphabet(trees[k]) for k in trees}, leaves={k: leaves(trees[k]) for k in trees},
         elemtype=sch.elemtype, elemkind=elemkind, decls=sch.decls,
         attrs={k: sorted(set(v)) for k, v in attrs.items()}, sbase=sbase, hastext=hastext,
-        st=st.table, pats=[dict(src=s, lab=[list(map(list, x)) for x in g.lab], first=sorted(g.first),
+        st=st.table, stdecl=decl, pats=[dict(src=s, lab=[list(map(list, x)) for x in g.lab], first=sorted(g.first),
                                 last=sorted(g.last), nullable=g.nullable,
                                 follow={str(p): v for p, v in g.fol().items()}) for s, g in st.pats],
     )
